@@ -200,6 +200,19 @@ CHECKS = {
              'OpenVPN layouts. LDAP rests on asn1crypto (oracle; sweeps only); MySQLHandshakeV10 not yet specified. Known finding: COTP '
              'reference order (pinned by a test).',
         technique='Coq proof (wire type preserved; framing lemma family) + implementation-vs-specification differential run'),
+    'C13': dict(
+        category='proof',
+        text='Partial by nature. Coq theorems over an explicit-store model: when every defaulted field is built per instance, no history of '
+             'constructions and in-place edits changes the class-level defaults and every instance reads the pristine values (induction over '
+             'histories); the hypothesis is decided on the table of all 35 default sites regenerated from the live library (attr.Factory / '
+             'rebuilt by converter / shared object); one shared mutable default refutes the claim; the repaired ClientHello.compose leaves '
+             'the cipher suite vector alone for all vectors, bounds and flags, the pinned one did not. Tie (what decides the runtime facts): '
+             'every default site exhaustively (construct, edit in place, construct again, identity), every class: parse from a bytearray, '
+             'overwrite / clear it, compare with a deep copy; random observer histories with a deep-copy comparison after every call.',
+        design_ref='DESIGN.md section 6, C13',
+        note='Object identity and aliasing are CPython runtime behaviour; the model cannot exhibit aliasing introduced in code it '
+             'transcribes as a copy - the exhaustive per-site / per-class runs are what catch that. 4 Set-Cookie default sites are known findings.',
+        technique='Coq proof over an explicit-store model + generated default-site table; exhaustive per-site and per-class aliasing / observer-history runs on the implementation'),
 }
 
 NOT_YET = {}
